@@ -184,10 +184,16 @@ func c12Run(r *Run, start, preamble string) {
 					Act("unpauseSendingAndReceiving by "+s.Name, &cctptypes.MsgUnpauseSendingAndReceivingMessages{From: s.Str}),
 				)
 			}
+			if w.ctx.BlockHeight() == 1 { // a flag changes only by the pauser's action -- not by the passage of blocks or time
+				as = append(as, AdvanceAction())
+			}
 			return as
 		},
 		Step: func(r *Run, pre *Node, a Action, o Outcome, w *World, post *Node) bool {
 			m := pre.Model.(c12Model)
+			if a.Type == AdvanceType {
+				return true
+			}
 			next, from := c12Apply(m, a)
 			exp := MustFail
 			if from == pauser.Str {
